@@ -218,7 +218,7 @@ def entries():
     # a high power that cancels, evaluated where the power itself overflows a double: the cancelled term is absent or a
     # retained all-zero term, the value is the same either way (D58: inf * 0 = nan under retain_coefficients=True)
     add("cancelled high power then call(large float)", lambda r: [int(r.integers(100, 200)), int(r.integers(-3, 4)), gen.choice(r, [1e10, -1e9, 2.5e12])],
-        lambda e, c, x: (lambda q: (1.0 * q ** e - q ** e + c + q)(x))(numpoly.variable()), "calculus")
+        lambda e, c, x: (lambda q, qe: (1.0 * qe - qe + c + q)(x))(numpoly.variable(), numpoly.polynomial({(e,): 1})), "calculus")
     # constant-ness after a cancellation: the cancelled terms are absent or retained all-zero terms, the answer is the
     # same (seeded change C15-13: isconstant through a cleanup that follows the global option)
     add("isconstant after cancellation", lambda r: [P(r, nterms=2, kind="int"), int(r.integers(-3, 4))],
@@ -229,6 +229,17 @@ def entries():
         lambda a: (a - a + numpoly.symbols("q0") - numpoly.symbols("q1"))(q0=numpoly.symbols("q1")), "calculus")
     add("power with a cancelled exponent polynomial", lambda r: [P(r, shape=(), nterms=2, kind="int"), int(r.integers(0, 3))],
         lambda a, k: numpoly.symbols("q1") ** (a - a + k), "arith")
+    # a cancelled term with a large exponent as a factor: the product's key path has to cope with the exponents of stored
+    # all-zero terms as well (seeded change C15-15: kernel / fallback chosen from the non-zero terms only)
+    add("product after a cancelled high power", lambda r: [int(r.integers(66, 80)), int(r.integers(3, 6)), gen.choice(r, ["int", "float", "complex"])],
+        lambda e, k, kind: (lambda q, qe: (((qe + q) - qe) * {"int": 1, "float": 1.0, "complex": 1 + 0j}[kind]) * q ** k)(numpoly.variable(), numpoly.polynomial({(e,): 1})), "arith")
+    # sums over one indeterminate followed by sums over two whose storage keys hold the same code points (rows [a], [b] and
+    # the row [a, b]): each sum is what it is, whatever was aligned before in the process (seeded change C15-16: the union
+    # table cached by the bytes of the keys under retain_coefficients=True)
+    add("sums with byte-identical keys over 1 and 2 indeterminates", lambda r: [int(r.integers(1, 4)), int(r.integers(4, 7)), bool(r.integers(2))],
+        lambda a, b, swap: [f() for f in ([
+            lambda: numpoly.polynomial({(a,): 1, (b,): 1}, names=("q0",)) + numpoly.polynomial({(0,): 1, (a,): 1}, names=("q0",)),
+            lambda: numpoly.polynomial({(a, b): 1}, names=("q0", "q1")) + numpoly.polynomial({(0, a): 1}, names=("q0", "q1"))][::-1 if swap else 1])], "arith")
     add("call(poly)", lambda r: [P(r, maxexp=2, nterms=2), P(r, shape=(), nterms=2, maxexp=1)],
         lambda a, b: a(**{a.names[0]: b}), "calculus")
     # alignment ----------------------------------------------------------------------------
